@@ -57,6 +57,18 @@ CHECKS = {
             "precedence table and compared with the tree the generator intended. Held on the trees observed.",
             "Trusted: mf/exprmodel.py (precedence table as stated in the property); numbers compared by value.",
             "DESIGN.md 2 C10"),
+    "C13": ("relation over four recorded parse events (include_position x include_comments, through loads/open/load) and their "
+            "print events; 'apart from comment text' decided by an independent scanner",
+            "All corpus files and generated documents with random and placed comments; stripped results must equal the plain load "
+            "exactly and print the same non-comment token stream. Held on the (document, flags) pairs observed.",
+            "Trusted: mf/reader.py comment scanner (cross-checked against the lexer on 9,798 corpus comments).",
+            "DESIGN.md 2 C13"),
+    "C14": ("offline checker over recorded (source comments, output comments): multiset containment with decomposition of "
+            "single-space joins, content relation, and placement relations for uniquely numbered comments placed by the renderer",
+            "Generated one-keyword-per-line documents with numbered comments at the claimed placements (all four clauses), gap-comment "
+            "documents and the corpus (three universal clauses), LF and CRLF. Held on the documents observed.",
+            "Trusted: mf/reader.py; the renderer's record of which keyword / opener each comment was attached to.",
+            "DESIGN.md 2 C14"),
     "C16": ("icontract postcondition on the real PrettyPrinter.pprint (layout part): per-line indentation, END placement, END "
             "comments, line-break characters and alignment column computed from an independent reading of the output",
             "Vocabulary, generated, loaded (with comments), edited and corpus dictionaries x the formatter option sets of C06 "
